@@ -16,6 +16,9 @@ pub const RULE: &str = "enumerated: every secret length 0..=60 in five alphabets
 
 #[derive(Clone, Debug, Serialize, Deserialize)]
 pub struct Derive {
+    /// render log records at trace level while deriving
+    #[serde(default)]
+    pub trace: bool,
     pub secret: String,
     pub y: i32,
     pub m: u32,
@@ -26,6 +29,8 @@ pub struct Derive {
 
 #[derive(Clone, Debug, Serialize, Deserialize)]
 pub struct Cap {
+    #[serde(default)]
+    pub trace: bool,
     pub secret: String,
     pub capacity: usize,
 }
@@ -55,13 +60,154 @@ pub fn subs() -> Vec<Box<dyn AnySub>> {
                 (crate::gen::secret(), (1i64..=9999, 1u32..=12, 1u32..=31), text(), text())
                     .prop_map(|(secret, (y, m, d), region, service)| {
                         let d = d.min(crate::model::time::days_in_month(y, m));
-                        Derive { secret, y: y as i32, m, d, region, service }
+                        Derive { trace: false, secret, y: y as i32, m, d, region, service }
+                    })
+                    .boxed()
+            },
+            check: check_derive,
+        }),
+        // consecutive derivations on one thread whose inputs differ only in where a boundary falls, or in one
+        // component: a remembered previous result must never be handed out for different inputs
+        Box::new(Sub {
+            name: "consecutive-derivations",
+            quick: 8_000,
+            thorough: 150_000,
+            strat: || {
+                (crate::gen::secret(), (1i64..=9999, 1u32..=12, 1u32..=28), text(), text(), proptest::collection::vec((0u8..12, text(), any::<u16>()), 1..6))
+                    .prop_map(|(secret, (y, m, d), region, service, steps)| DeriveSeq { first: Derive { trace: false, secret, y: y as i32, m, d, region, service }, steps })
+                    .boxed()
+            },
+            check: check_derive_seq,
+        }),
+        // the same operations while a logger renders every record down to trace level
+        Box::new(EnumSub {
+            name: "capacity-with-trace-logging",
+            exhaustive: true,
+            list: |t| cap_list(t).into_iter().map(|c| Cap { trace: true, ..c }).collect(),
+            check: check_cap,
+        }),
+        Box::new(Sub {
+            name: "derive-with-trace-logging",
+            quick: 10_000,
+            thorough: 200_000,
+            strat: || {
+                (crate::gen::secret(), (1i64..=9999, 1u32..=12, 1u32..=31), text(), text())
+                    .prop_map(|(secret, (y, m, d), region, service)| {
+                        let d = d.min(crate::model::time::days_in_month(y, m));
+                        Derive { trace: true, secret, y: y as i32, m, d, region, service }
                     })
                     .boxed()
             },
             check: check_derive,
         }),
     ]
+}
+
+#[derive(Clone, Debug, Serialize, Deserialize)]
+pub struct DeriveSeq {
+    pub first: Derive,
+    /// (kind, text, number) edits applied one after the other
+    pub steps: Vec<(u8, String, u16)>,
+}
+
+fn split_at_char(s: &str, k: u16) -> (String, String) {
+    let n = s.chars().count();
+    let i = if n == 0 { 0 } else { crate::engine::pick_idx(k, n + 1) };
+    (s.chars().take(i).collect(), s.chars().skip(i).collect())
+}
+
+pub fn check_derive_seq(sq: &DeriveSeq, cc: &mut CaseCtx) -> CheckResult {
+    let mut cur = sq.first.clone();
+    check_derive(&cur, &mut CaseCtx::default())?;
+    let mut kinds = Vec::new();
+    for (kind, text, k) in &sq.steps {
+        let mut next = cur.clone();
+        let name = match kind {
+            // the joined text "region/service" stays the same, the boundary moves
+            0 => {
+                let (a, b) = split_at_char(&cur.service, *k);
+                next.region = format!("{}/{}", cur.region, a);
+                next.service = b;
+                "slash-moves-right"
+            }
+            1 => {
+                let (a, b) = split_at_char(&cur.region, *k);
+                next.region = a;
+                next.service = format!("{}/{}", b, cur.service);
+                "slash-moves-left"
+            }
+            // the concatenation stays the same
+            2 => {
+                let (a, b) = split_at_char(&cur.service, *k);
+                next.region = format!("{}{}", cur.region, a);
+                next.service = b;
+                "boundary-moves-right"
+            }
+            3 => {
+                let (a, b) = split_at_char(&cur.region, *k);
+                next.region = a;
+                next.service = format!("{}{}", b, cur.service);
+                "boundary-moves-left"
+            }
+            4 => {
+                std::mem::swap(&mut next.region, &mut next.service);
+                "exchanged"
+            }
+            5 => {
+                next.region = text.clone();
+                "other-region"
+            }
+            6 => {
+                next.service = text.clone();
+                "other-service"
+            }
+            7 => {
+                // another day, same month and year / same day another year
+                if k % 2 == 0 {
+                    next.d = 1 + (cur.d + (*k as u32 / 2) % 27) % 28;
+                } else {
+                    next.y = 1 + (cur.y + (*k as i32 / 2) % 9998) % 9999;
+                }
+                "other-date"
+            }
+            8 => {
+                // a secret of the same length differing in its last character, or sharing a prefix
+                let mut sc: Vec<char> = cur.secret.chars().collect();
+                match sc.last_mut() {
+                    Some(c) if k % 2 == 0 => *c = if *c == 'x' { 'y' } else { 'x' },
+                    _ => sc.push('x'),
+                }
+                next.secret = sc.into_iter().collect();
+                if next.secret.len() > 40 {
+                    next.secret = cur.secret.chars().skip(1).collect();
+                }
+                "other-secret"
+            }
+            9 => {
+                // the secret's tail moves into ... nothing: a shorter secret (prefix of the previous one)
+                next.secret = cur.secret.chars().take(cur.secret.chars().count() / 2).collect();
+                "secret-prefix"
+            }
+            10 => {
+                next.region = cur.region.to_uppercase();
+                next.service = cur.service.to_uppercase();
+                "upper-case"
+            }
+            _ => "repeat",
+        };
+        if next.region == cur.region && next.service == cur.service && next.secret == cur.secret && (next.y, next.m, next.d) == (cur.y, cur.m, cur.d) && *kind != 11 {
+            continue;
+        }
+        kinds.push(name);
+        cc.class(name);
+        check_derive(&next, &mut CaseCtx::default()).map_err(|f| Failure::new(&format!("{}:after-{}", f.sig, name), format!("{} -- directly after deriving for secret {:?} date {:04}{:02}{:02} region {:?} service {:?}", f.msg, cur.secret, cur.y, cur.m, cur.d, cur.region, cur.service)))?;
+        cur = next;
+    }
+    if !kinds.is_empty() {
+        cc.nontrivial(digest_of(&[format!("{:?}", sq).as_bytes()]));
+        cc.sample(json!({"first": format!("secret {:?} date {:04}{:02}{:02} region {:?} service {:?}", sq.first.secret, sq.first.y, sq.first.m, sq.first.d, sq.first.region, sq.first.service), "then": kinds}));
+    }
+    Ok(())
 }
 
 fn secrets_of_len(n: usize) -> Vec<String> {
@@ -85,7 +231,7 @@ pub fn cap_list(_t: Tier) -> Vec<Cap> {
     for n in 0..=60usize {
         for s in secrets_of_len(n) {
             for c in [0usize, 1, 3, 4, 5, 8, 20, 44, 64, 100] {
-                out.push(Cap { secret: s.clone(), capacity: c });
+                out.push(Cap { trace: false, secret: s.clone(), capacity: c });
             }
         }
     }
@@ -100,6 +246,10 @@ fn try_cap<const M: usize>(s: &str) -> Result<bool, String> {
 }
 
 pub fn check_cap(c: &Cap, cc: &mut CaseCtx) -> CheckResult {
+    if c.trace {
+        crate::exec::enable_log_capture();
+        return crate::exec::with_logs(|| check_cap(&Cap { trace: false, ..c.clone() }, cc)).0.map_err(|f| Failure::new(&format!("{}:trace-logging", f.sig), f.msg));
+    }
     let s = c.secret.as_str();
     let got = match c.capacity {
         0 => try_cap::<0>(s),
@@ -140,7 +290,7 @@ fn calendar_list(t: Tier) -> Vec<Derive> {
             let (yy, m, d) = civil_from_days(z);
             let month_end = d == crate::model::time::days_in_month(yy, m) || d == 1;
             if t == Tier::Thorough || month_end {
-                out.push(Derive { secret: "wJalrXUtnFEMI/K7MDENG+bPxRfiCYEXAMPLEKEY".into(), y: yy as i32, m, d, region: "us-east-1".into(), service: "iam".into() });
+                out.push(Derive { trace: false, secret: "wJalrXUtnFEMI/K7MDENG+bPxRfiCYEXAMPLEKEY".into(), y: yy as i32, m, d, region: "us-east-1".into(), service: "iam".into() });
             }
         }
     }
@@ -148,6 +298,10 @@ fn calendar_list(t: Tier) -> Vec<Derive> {
 }
 
 pub fn check_derive(dv: &Derive, cc: &mut CaseCtx) -> CheckResult {
+    if dv.trace {
+        crate::exec::enable_log_capture();
+        return crate::exec::with_logs(|| check_derive(&Derive { trace: false, ..dv.clone() }, cc)).0.map_err(|f| Failure::new(&format!("{}:trace-logging", f.sig), f.msg));
+    }
     let Some(date) = NaiveDate::from_ymd_opt(dv.y, dv.m, dv.d) else { return Ok(()) };
     let date8 = format!("{:04}{:02}{:02}", dv.y, dv.m, dv.d);
     let want = key_chain(dv.secret.as_bytes(), &date8, &dv.region, &dv.service);
